@@ -292,8 +292,9 @@ Definition F_attrnames (M : cmodel) : bool :=
                                       && match kind_of M f with
                                          | KRef _ => negb (str_in (f_name f ++ "_id") ns)
                                          | _ => true end) (own_public_fields M c)) M.
-(* C06-n (5e556b1): an attribute of a subclass DAO named like a column of an ancestor's table (x_id beside an inherited
-   reference x, or the discriminator) is refused as well *)
+(* C06-n (5e556b1) and C06-p (84214c3): an attribute of a subclass DAO named like a column OR a relationship of an
+   ancestor's DAO (x_id beside an inherited reference x, a reference g beside an inherited reference g_id, the
+   discriminator) is refused as well *)
 Definition derived_cols (M : cmodel) (c : cls) : list string :=
   flat_map (fun f => match kind_of M f with
                      | KColumn _ _ _ => [f_name f]
@@ -303,7 +304,7 @@ Definition derived_attrs (M : cmodel) (c : cls) : list string :=
   List.app (field_names (own_public_fields M c))
            (flat_map (fun f => match kind_of M f with KRef _ => [f_name f ++ "_id"] | _ => [] end) (own_public_fields M c)).
 Definition F_inherited (M : cmodel) : bool :=
-  forallb (fun c => let inh := List.app (flat_map (derived_cols M) (ancestors (List.length M) M c))
+  forallb (fun c => let inh := List.app (flat_map (derived_attrs M) (ancestors (List.length M) M c))
                                         (match parent_of M c with Some _ => ["polymorphic_type"] | None => [] end) in
                     forallb (fun n => negb (str_in n inh)) (derived_attrs M c)) M.
 (* C06-h/k: two classes / collection fields stored under the same name; [tname] and [aname] are the generator's naming of
@@ -321,12 +322,4 @@ Definition spec_obs_r (tname : string -> string) (aname : string -> string -> st
 (* C06-g (open): class names stay distinct when lower-cased; and no underscore (association names stay unambiguous) *)
 Definition F_classnames (M : cmodel) : bool :=
   str_nodup (map py_lower (class_names M)) && forallb (fun c => negb (contains_char "_" (c_name c))) M.
-(* C06-p (open): a reference r in a class whose foreign-key column r_id is named like a reference or collection FIELD
-   r_id of an ancestor: not refused by the generator, the module does not import *)
-Definition F_inherited_rel (M : cmodel) : bool :=
-  forallb (fun c => let inh := flat_map (fun a => flat_map (fun f => match kind_of M f with
-                                                                     | KRef _ | KColl _ => [f_name f]
-                                                                     | _ => [] end) (own_public_fields M a))
-                                        (ancestors (List.length M) M c) in
-                    forallb (fun n => negb (str_in n inh)) (derived_cols M c)) M.
-Definition inF (M : cmodel) : bool := F_attrnames M && F_inherited M && F_inherited_rel M && F_classnames M.
+Definition inF (M : cmodel) : bool := F_attrnames M && F_inherited M && F_classnames M.
